@@ -176,3 +176,243 @@ pub fn record_reshape(seed: u64, tier: &str, trace: &mut Vec<Value>, rep: &mut R
         rep.cases += 1;
     }
 }
+
+// ------------------------------------------------------------------------------------------------
+// Group "arith" (C15)
+// ------------------------------------------------------------------------------------------------
+
+/// Tensor from the specification's record: {"rank": r, "data": nested} or {"rank": 0, "parts": [...]}.
+pub fn spec_tensor(v: &Value) -> Tensor {
+    if v["rank"].as_u64() == Some(0) {
+        Tensor::nested(v["parts"].as_array().unwrap().iter().map(spec_tensor).collect())
+    } else {
+        tensor_from(&v["data"])
+    }
+}
+
+fn diff_spec_tensor(t: &Tensor, want: &Value) -> Option<String> {
+    if want["rank"].as_u64() == Some(0) {
+        let parts = match &t.data {
+            neurons::tensor::Data::Nested(p) => p,
+            _ => return Some("expected a nested tensor".to_string()),
+        };
+        let wparts = want["parts"].as_array().unwrap();
+        if parts.len() != wparts.len() || shape_dims(&t.shape) != vec![wparts.len()] {
+            return Some("nested length".to_string());
+        }
+        for (p, w) in parts.iter().zip(wparts.iter()) {
+            if let Some(d) = diff_spec_tensor(p, w) {
+                return Some(d);
+            }
+        }
+        None
+    } else {
+        diff_exact(t, &want["data"])
+    }
+}
+
+fn same_shape_random(t: &Tensor, rng: &mut Rng) -> Tensor {
+    use neurons::tensor::Data;
+    let mut r = t.clone();
+    fn fill(d: &mut Data, rng: &mut Rng) {
+        let mut f = |x: &mut f32| *x = (rng.unit() - 0.5) * 8.0 + if rng.below(7) == 0 { 1.0e-3 } else { 0.0 };
+        match d {
+            Data::Single(a) => a.iter_mut().for_each(&mut f),
+            Data::Double(a) => a.iter_mut().flatten().for_each(&mut f),
+            Data::Triple(a) => a.iter_mut().flatten().flatten().for_each(&mut f),
+            Data::Quadruple(a) => a.iter_mut().flatten().flatten().flatten().for_each(&mut f),
+            Data::Nested(ts) => ts.iter_mut().for_each(|t| fill(&mut t.data, rng)),
+            _ => (),
+        }
+    }
+    fill(&mut r.data, rng);
+    r
+}
+
+/// Apply one arithmetic step to `acc`; returns Ok(result) or Err(panic message).
+fn apply_arith(acc: &Tensor, op: &str, arg: &[Tensor], extra: &Value) -> Result<Tensor, String> {
+    let mut x = acc.clone();
+    guarded(move || {
+        match op {
+            "add" => x.add_inplace(&arg[0]),
+            "sub" => x.sub_inplace(&arg[0]),
+            "mul" => x.mul_inplace(&arg[0]),
+            "hadamard" => x.hadamard(&arg[0], extra.as_i64().unwrap() as f32),
+            "div" => x.div_scalar_inplace(extra.as_i64().unwrap() as f32),
+            "mean" => x.mean_inplace(&arg.iter().collect()),
+            "clamp" => x = x.clamp(extra[0].as_i64().unwrap() as f32, extra[1].as_i64().unwrap() as f32),
+            "transpose" => x = x.transpose(),
+            "dot" => x = x.dot(&arg[0]),
+            "product" => x = x.product(&arg[0]),
+            _ => panic!("harness: unknown arith op {}", op),
+        }
+        x
+    })
+}
+
+/// The IEEE single-precision element function of each operation (float mode).
+fn native(op: &str, a: f32, bs: &[f32], extra: &Value) -> f32 {
+    match op {
+        "add" => a + bs[0],
+        "sub" => a - bs[0],
+        "mul" => a * bs[0],
+        "hadamard" => a * bs[0] * extra.as_i64().unwrap() as f32,
+        "div" => a / extra.as_i64().unwrap() as f32,
+        "mean" => (a + bs.iter().sum::<f32>()) / (bs.len() + 1) as f32,
+        "clamp" => a.clamp(extra[0].as_i64().unwrap() as f32, extra[1].as_i64().unwrap() as f32),
+        _ => unreachable!(),
+    }
+}
+
+pub fn replay_arith(case: &Value, rep: &mut Report, rng: &mut Rng) {
+    let mut acc = spec_tensor(&case["start"]);
+    let steps = case["steps"].as_array().unwrap();
+    let mut key = format!("{}", case["start"]);
+    for s in steps {
+        key.push_str(&format!("|{}:{}:{}", str_of(s, "op"), s["arg"], s["extra"]));
+    }
+    let id = format!("arith:{}", &key[..key.len().min(200)]);
+    let mut interesting = false;
+    for (i, step) in steps.iter().enumerate() {
+        let op = str_of(step, "op");
+        let args: Vec<Tensor> = match op {
+            "mean" => step["arg"].as_array().unwrap().iter().map(spec_tensor).collect(),
+            "div" | "clamp" | "transpose" => vec![],
+            _ => vec![spec_tensor(&step["arg"])],
+        };
+        let want = str_of(step, "outcome");
+        let got = apply_arith(&acc, op, &args, &step["extra"]);
+        rep.checks += 1;
+        match (&got, want) {
+            (Ok(_), "panic") => {
+                rep.mismatch("C15", "mismatch_not_refused", &id, json!({"step": i, "op": op}), case);
+                return;
+            }
+            (Err(e), "ok") => {
+                rep.mismatch("C15", "unexpected_panic", &id, json!({"step": i, "op": op, "panic": e}), case);
+                return;
+            }
+            _ => (),
+        }
+        if let Ok(result) = got {
+            if let Some(d) = diff_spec_tensor(&result, &step["result"]) {
+                rep.mismatch("C15", "value", &id, json!({"step": i, "op": op, "diff": d}), case);
+                return;
+            }
+            interesting = true;
+            // Float mode: same operation and shapes, harness-chosen floats, every element one IEEE operation.
+            if matches!(op, "add" | "sub" | "mul" | "hadamard" | "div" | "mean" | "clamp") {
+                let fa = same_shape_random(&acc, rng);
+                let fargs: Vec<Tensor> = args.iter().map(|t| same_shape_random(t, rng)).collect();
+                match apply_arith(&fa, op, &fargs, &step["extra"]) {
+                    Ok(fr) => {
+                        let a = flat(&fa);
+                        let bs: Vec<Vec<f32>> = fargs.iter().map(flat).collect();
+                        let want: Vec<f32> = (0..a.len())
+                            .map(|k| native(op, a[k], &bs.iter().map(|b| b[k]).collect::<Vec<f32>>(), &step["extra"]))
+                            .collect();
+                        rep.checks += 1;
+                        if let Some(d) = diff_flat_exact(&flat(&fr), &want) {
+                            rep.mismatch("C15", "float_value", &id, json!({"step": i, "op": op, "diff": d}), case);
+                            return;
+                        }
+                        if shape_dims(&fr.shape) != shape_dims(&fa.shape) {
+                            rep.mismatch("C15", "float_shape", &id, json!({"step": i, "op": op}), case);
+                            return;
+                        }
+                    }
+                    Err(e) => {
+                        rep.mismatch("C15", "float_panic", &id, json!({"step": i, "op": op, "panic": e}), case);
+                        return;
+                    }
+                }
+            }
+            acc = result;
+        } else {
+            interesting = true;
+        }
+    }
+    if interesting {
+        rep.nontrivial(key);
+    }
+}
+
+fn int_tensor(rank: usize, dims: &[usize], rng: &mut Rng) -> Tensor {
+    let n: usize = dims.iter().product();
+    let v: Vec<f32> = (0..n).map(|_| rng.range(-4, 4) as f32).collect();
+    let mut it = v.into_iter();
+    match rank {
+        1 => Tensor::single((0..dims[0]).map(|_| it.next().unwrap()).collect()),
+        2 => Tensor::double((0..dims[0]).map(|_| (0..dims[1]).map(|_| it.next().unwrap()).collect()).collect()),
+        3 => Tensor::triple(
+            (0..dims[0])
+                .map(|_| (0..dims[1]).map(|_| (0..dims[2]).map(|_| it.next().unwrap()).collect()).collect())
+                .collect(),
+        ),
+        _ => Tensor::quadruple(
+            (0..dims[0])
+                .map(|_| {
+                    (0..dims[1])
+                        .map(|_| (0..dims[2]).map(|_| (0..dims[3]).map(|_| it.next().unwrap()).collect()).collect())
+                        .collect()
+                })
+                .collect(),
+        ),
+    }
+}
+
+fn spec_json(t: &Tensor) -> Value {
+    match &t.data {
+        neurons::tensor::Data::Nested(parts) => json!({"rank": 0, "parts": parts.iter().map(spec_json).collect::<Vec<_>>()}),
+        _ => {
+            let ints = |v: Value| -> Value {
+                fn conv(v: &Value) -> Value {
+                    match v.as_array() {
+                        Some(a) => Value::Array(a.iter().map(conv).collect()),
+                        None => json!(v.as_f64().unwrap() as i64),
+                    }
+                }
+                conv(&v)
+            };
+            json!({"rank": data_dims(&t.data).len(), "data": ints(tensor_json(t))})
+        }
+    }
+}
+
+/// Randomized driver (integer data, larger shapes, longer operation sequences than TLC enumerates).
+pub fn record_arith(seed: u64, tier: &str, trace: &mut Vec<Value>, rep: &mut Report) {
+    let mut rng = Rng::new(seed ^ 0xC15);
+    let runs = if tier == "thorough" { 300 } else { 50 };
+    for run in 0..runs {
+        let rank = rng.range(1, 4) as usize;
+        let dims: Vec<usize> = (0..rank).map(|_| rng.range(1, 4) as usize).collect();
+        let mut acc = int_tensor(rank, &dims, &mut rng);
+        trace.push(json!({"event": "Reset", "run": run, "tensor": spec_json(&acc)}));
+        for _ in 0..rng.range(1, 4) {
+            let op = *rng.pick(&["add", "sub", "mul", "hadamard"]);
+            let mismatch = rng.below(5) == 0;
+            let mut odims = dims.clone();
+            if mismatch {
+                let k = rng.below(rank as u64) as usize;
+                odims[k] += 1;
+            }
+            let other = int_tensor(rank, &odims, &mut rng);
+            let extra = if op == "hadamard" { json!(*rng.pick(&[1i64, 2, -1, 3])) } else { json!(0) };
+            // keep magnitudes small: skip multiplications once values are large
+            let big = flat(&acc).iter().any(|x| x.abs() > 1.0e4);
+            if big && (op == "mul" || op == "hadamard") {
+                continue;
+            }
+            let got = apply_arith(&acc, op, std::slice::from_ref(&other), &extra);
+            rep.checks += 1;
+            let (outcome, after) = match got {
+                Ok(t) => ("ok", t),
+                Err(_) => ("panic", acc.clone()),
+            };
+            trace.push(json!({"event": "Binary", "op": op, "arg": spec_json(&other), "k": extra,
+                              "outcome": outcome, "result": spec_json(&after)}));
+            acc = after;
+        }
+        rep.cases += 1;
+    }
+}
